@@ -372,7 +372,7 @@ Lemma gl_ss_write_vectored_eq x bufs :
 Proof.
   rewrite g_ss_write_vectored_first. unfold gl_ss_write_vectored. cbv zeta.
   (* whichever way the selection after `find` is spelled (StreamGen.v select_first_nonempty) *)
-  select_first_nonempty bufs.
+  select_first_nonempty gl_ss_write bufs.
   all: rewrite gl_ss_write_eq;
     match goal with |- context [g_ss_write (lss_erase ?y) ?b] => destruct (g_ss_write (lss_erase y) b) as [[? ?]|] end; reflexivity.
 Qed.
